@@ -120,13 +120,13 @@ def run(ctx):
     if ctx.thorough:
         stage(ctx, binary, "decl2-obs4", 2, 2, 4, devs, seen, explained)
         stage(ctx, binary, "decl3-4-obs3", 3, 4, 3, devs, seen, explained)
-        r = vlib.tlc(ctx, "MCBuckets", cfg(2, 3, 2, emit=False, invs=INVS[:-1]), label="Buckets-coverage", coverage=True, extra_files=MC)
+        r = vlib.tlc(ctx, "MCBuckets", cfg(2, 2, 2, emit=False, invs=INVS[:-1], reload=True), label="Buckets-coverage", coverage=True, extra_files=MC)
         if covutil.final_zero_cov(r.stdout):
             raise vlib.InfraError("actions never taken in Buckets.tla: %s" % covutil.final_zero_cov(r.stdout))
     else:
         stage(ctx, binary, "decl2-4-obs2", 2, 4, 2, devs, seen, explained)
     # a reload with an edited boundary list between the observations: everything counted so far survives it
-    stage(ctx, binary, "reload-decl2-obs3" if ctx.thorough else "reload-decl2-obs2", 2, 2, 3 if ctx.thorough else 2, devs, seen, explained, reload=True)
+    stage(ctx, binary, "reload-decl2-3-obs2" if ctx.thorough else "reload-decl2-obs2", 2, 3 if ctx.thorough else 2, 2, devs, seen, explained, reload=True)
     for d in devs:
         ex = explained.get(d)
         if not ex:
